@@ -54,6 +54,31 @@ def generate() -> str:
                             else:
                                 parts.append("other:" + src(v))
                         F["hdrCell"] = "[" + ", ".join(lean_str(p) for p in parts) + "]"
+    if init is not None and F["hdrOuter"] == lean_str("missing"):
+        # the same header built with nested loops:  header = [first] ; for g in A: for m in B: header.append(f"{g}-{m}")
+        body = list(init.body)
+        for idx, st in enumerate(body):
+            if isinstance(st, ast.Assign) and src(st.targets[0]) == "header" and isinstance(st.value, ast.List) and len(st.value.elts) == 1 \
+                    and isinstance(st.value.elts[0], ast.Constant) and idx + 1 < len(body) and isinstance(body[idx + 1], ast.For):
+                o = body[idx + 1]
+                if len(o.body) == 1 and isinstance(o.body[0], ast.For) and not o.orelse:
+                    i_ = o.body[0]
+                    if len(i_.body) == 1 and isinstance(i_.body[0], ast.Expr) and isinstance(i_.body[0].value, ast.Call) \
+                            and src(i_.body[0].value.func) == "header.append" and len(i_.body[0].value.args) == 1:
+                        elt = i_.body[0].value.args[0]
+                        F["hdrFirst"] = lean_str(str(st.value.elts[0].value))
+                        F["hdrOuter"], F["hdrInner"] = lean_str(attr(src(o.iter))), lean_str(attr(src(i_.iter)))
+                        if isinstance(elt, ast.JoinedStr):
+                            parts = []
+                            for v in elt.values:
+                                if isinstance(v, ast.Constant):
+                                    parts.append("lit:" + str(v.value))
+                                elif isinstance(v, ast.FormattedValue) and v.conversion == -1 and v.format_spec is None:
+                                    nm = src(v.value)
+                                    parts.append("outer" if nm == src(o.target) else "inner" if nm == src(i_.target) else "other:" + nm)
+                                else:
+                                    parts.append("other:" + src(v))
+                            F["hdrCell"] = "[" + ", ".join(lean_str(p_) for p_ in parts) + "]"
     sv = meth.get("_save_one_subject")
     if sv is not None:
         subj = sv.args.args[1].arg
@@ -89,6 +114,12 @@ def generate() -> str:
                                 loc[c.targets[0].id] = src(c.value)
                             if isinstance(c, ast.Expr) and isinstance(c.value, ast.Call) and src(c.value.func) == f"{content}.append" and len(c.value.args) == 1:
                                 cell = loc.get(src(c.value.args[0]), src(c.value.args[0]))
+                            if isinstance(c, ast.If) and len(c.body) == 1 and len(c.orelse) == 1:
+                                # if <test>: content.append(A) else: content.append(B)   ==   content.append(A if <test> else B)
+                                ab = [x.value.args[0] for x in (c.body[0], c.orelse[0]) if isinstance(x, ast.Expr) and isinstance(x.value, ast.Call)
+                                      and src(x.value.func) == f"{content}.append" and len(x.value.args) == 1]
+                                if len(ab) == 2:
+                                    cell = f"{src(ab[0])} if {src(c.test)} else {src(ab[1])}"
                         ok = cell in (f"{dict_var}[{e}] if {e} in {dict_var} else ''", f"{dict_var}.get({e}, '')", f"'' if {e} not in {dict_var} else {dict_var}[{e}]")
                         F["rowCell"] = lean_str("the group's value of the metric, or the empty string" if ok else "other: " + str(cell))
                 if dict_var:
